@@ -299,7 +299,7 @@ CONFIGS = {
     "axi16_seq_rndd": (dict(dw=16, aw=5, axi=True, force=dict(random_addr=0, random_data=1)), 28, 40, "qt"),
     "axi16_rnda_seq": (dict(dw=16, aw=5, axi=True, force=dict(random_addr=1, random_data=0)), 0, 40, "t"),
     "native16": (dict(dw=16, aw=6), 0, 36, "t"),
-    "native32_seq": (dict(dw=32, aw=5, force=dict(random_addr=0, random_data=0)), 0, 40, "t"),
+    "native32_seq": (dict(dw=32, aw=5, force=dict(random_addr=0, random_data=0)), 26, 40, "qt"),
     "native8": (dict(dw=8, aw=6), 0, 40, "t"),
 }
 BENCHES = {n: partial(bist_bench, n, **c[0]) for n, c in CONFIGS.items()}
